@@ -28,12 +28,12 @@ struct Msg { int src, tag; bool hasPayload; int payload; };
 struct Recv {              // a posted receive
     int owner, src, tag;
     int* buf;              // may be null (no payload expected)
-    bool matched, completed, cancelled;
+    bool matched, completed, cancelled, delivered;
     Msg msg;
-    Recv() : owner(-1), src(-1), tag(-1), buf(0), matched(false), completed(false), cancelled(false) {}
+    Recv() : owner(-1), src(-1), tag(-1), buf(0), matched(false), completed(false), cancelled(false), delivered(false) {}
 };
 
-enum ThreadState { RUN, WAIT_TEST, WAIT_BARRIER, DONE };
+enum ThreadState { RUN, WAIT_TEST, WAIT_BARRIER, WAIT_BCAST, DONE };
 
 struct World {
     int P;
@@ -44,7 +44,8 @@ struct World {
     bool grantSees;                 // decision handed to the rank that gets the token at a test
     std::vector<std::deque<Msg> > unexpected;
     std::vector<std::list<std::shared_ptr<Recv> > > posted;
-    std::vector<int>* bcastBuf;
+    std::map<long, std::vector<int> > bcastVals;   // broadcast number -> value deposited by its root
+    std::vector<long> bcastCount;                  // per rank: number of broadcasts it has taken part in
     unsigned long long rng;
     long steps, maxSteps;
     bool hang;
@@ -52,7 +53,7 @@ struct World {
     int seeNum, seeDen;             // probability that an available message is seen
 
     World(int P_, unsigned long long seed, long maxSteps_, int seeNum_, int seeDen_)
-        : P(P_), st(P_, RUN), turn(-1), grantSees(false), unexpected(P_), posted(P_), bcastBuf(0),
+        : P(P_), st(P_, RUN), turn(-1), grantSees(false), unexpected(P_), posted(P_), bcastCount(P_, 0),
           rng(seed), steps(0), maxSteps(maxSteps_), hang(false), seeNum(seeNum_), seeDen(seeDen_) {}
 
     unsigned long long next() {
@@ -118,7 +119,7 @@ public:
         char buf[64]; std::snprintf(buf, sizeof buf, "t %d %d", myRank, int(ok)); W->log.push_back(buf);
         if (!ok) return boost::optional<status>();
         r->completed = true;
-        if (r->buf && r->msg.hasPayload) *r->buf = r->msg.payload;
+        if (r->buf && r->msg.hasPayload && !r->delivered) *r->buf = r->msg.payload;
         W->posted[r->owner].remove(r);
         return status(r->msg.tag, r->msg.src);
     }
@@ -164,18 +165,31 @@ private:
         r->owner = myRank; r->src = src; r->tag = tag; r->buf = buf;
         std::deque<Msg>& q = W->unexpected[myRank];
         for (std::deque<Msg>::iterator it = q.begin(); it != q.end(); ++it)
-            if (matches(*r, *it)) { r->matched = true; r->msg = *it; q.erase(it); break; }
+            if (matches(*r, *it)) {
+                // a message that is already there is matched at once, and (eager protocol) its payload is delivered into the
+                // receive buffer right away: MPI may write the buffer at any time between posting and completion, and the
+                // program must not touch it in between
+                r->matched = true; r->msg = *it; q.erase(it);
+                if (r->buf && r->msg.hasPayload) { *r->buf = r->msg.payload; r->delivered = true; }
+                break;
+            }
         W->posted[myRank].push_back(r);
         return request(r);
     }
 };
 
+// MPI_Bcast is NOT a synchronisation: the root deposits the value and goes on at once; every other rank blocks until the
+// root of the same (n-th) broadcast on the communicator has deposited it.
 inline void broadcast(const communicator& c, std::vector<int>& v, int root) {
     using namespace mockmpi;
-    if (c.rank() == root) { std::unique_lock<std::mutex> lk(W->mu); W->bcastBuf = &v; }
-    c.barrier();
-    if (c.rank() != root) { std::unique_lock<std::mutex> lk(W->mu); v = *W->bcastBuf; }
-    c.barrier();
+    long seq;
+    { std::unique_lock<std::mutex> lk(W->mu); seq = W->bcastCount[c.rank()]++; if (c.rank() == root) W->bcastVals[seq] = v; }
+    if (c.rank() != root) {
+        yieldAt(WAIT_BCAST);       // the scheduler hands the token back only when broadcast number `seq` has been deposited
+        if (W->hang) throw thread_abort();
+        std::unique_lock<std::mutex> lk(W->mu);
+        v = W->bcastVals[seq];
+    }
 }
 
 }} // namespace boost::mpi
